@@ -6,6 +6,7 @@ import (
 
 	"verifsim/refmqtt"
 	"verifsim/refsn"
+	"verifsim/simrt"
 )
 
 // ---------------------------------------------------------------------------------------------
@@ -443,6 +444,34 @@ func genC04(g *Gen, idx int) *Plan {
 		} else {
 			sg.gap(20, 300)
 		}
+	}
+	if !full && idx%4 == 3 {
+		// predefined ids at the very top of the range (a configuration that keeps them away from the ids
+		// handed out dynamically), and from some point on a client REGISTER and a broker PUBLISH on a
+		// brand-new topic reach the gateway at the same instant: its two receive loops look for a free id
+		// concurrently while the sequence wraps around inside the predefined block
+		p.Family = "C04-top-block-concurrent"
+		m := p.Cfg.MaxTopicAlias
+		top := map[uint16]string{}
+		for k, nm := range []string{"pre/1", "pre/2", "pre/3", "pre/x/y"}[:int(g.Range(1, 4))] {
+			top[m-uint16(k)] = nm
+		}
+		p.Cfg.Predefined = map[string]map[uint16]string{"*": top}
+		lat := g.Range(200, 2000)
+		p.Cfg.SN.MinLatUs, p.Cfg.SN.MaxLatUs = lat, lat
+		p.Cfg.MQ.MinLatUs, p.Cfg.MQ.MaxLatUs = lat, lat
+		p.Cfg.SN.Dup = 0
+		sg.ops = sg.ops[:1]
+		sg.t = sg.ops[0].AtMs + g.Range(300, 800)
+		p.Broker.Injects = nil
+		for i := 0; i < int(m)/2+4; i++ {
+			sg.add(refsn.Pkt{Type: refsn.REGISTER, MsgID: sg.nextMid(), TopicName: fmt.Sprintf("v/%d", i)})
+			if g.Bool(0.8) {
+				p.Broker.Injects = append(p.Broker.Injects, BrokerInject{AtMs: sg.t, Session: "p1", Force: true, Topic: fmt.Sprintf("bv/%d", i), Payload: serialPayload("m", i, 2), QoS: 0})
+			}
+			sg.gap(20, 200)
+		}
+		p.Cfg.Sched = simrt.SchedCfg{Density: 0.5 + g.Float()*0.5, Overlap: true, Sticky: []float64{0, 0.5, 0.9}[g.Intn(3)]}
 	}
 	p.Peers = []PeerPlan{{Name: "p1", Ops: sg.ops}}
 	if !full && g.Bool(0.3) {
